@@ -16,6 +16,9 @@ func init() {
 	Register(&Scenario{Prop: "C04", Name: "upload-download", Strict: true, Quick: 20, Thorough: 20, Run: func(rc *RunCtx) *simkit.Violation { return runC04(rc, 0) }})
 	Register(&Scenario{Prop: "C04", Name: "repeated-keys", Strict: true, Quick: 1, Thorough: 1, Run: func(rc *RunCtx) *simkit.Violation { return runC04(rc, -1) }})
 	Register(&Scenario{Prop: "C04", Name: "upload-download-1000", Strict: false, Quick: 1, Thorough: 2, Run: func(rc *RunCtx) *simkit.Violation { return runC04(rc, 1) }})
+	// one transient store error early in the upload of a tree that spans several file lists: the upload either fails and
+	// shows no bundle, or reports success and then the bundle is the whole tree
+	Register(&Scenario{Prop: "C04", Name: "upload-1000-one-store-error", Strict: false, Quick: 1, Thorough: 2, Run: func(rc *RunCtx) *simkit.Violation { return runC04(rc, 3) }})
 	Register(&Scenario{Prop: "C04", Name: "upload-download-2500", Strict: false, Quick: 0, Thorough: 1, Run: func(rc *RunCtx) *simkit.Violation { return runC04(rc, 2) }})
 }
 
@@ -84,6 +87,9 @@ func runC04(rc *RunCtx, big int) *simkit.Violation {
 		leaf = 64
 	case 2:
 		n = t.Pick(2000, 2001, 2500)
+		leaf = 64
+	case 3:
+		n = t.Pick(1001, 1100, 1500, 2100)
 		leaf = 64
 	default:
 		n = t.Pick(0, 1, 2, 3, 5, 10, 12)
@@ -177,6 +183,12 @@ func runC04(rc *RunCtx, big int) *simkit.Violation {
 		_, ofn := d.upload(other, d.Stores(other), "r2", osrc, uploadOpts{leaf: leaf, concUp: 3, message: "o"})
 		w.Go(other, "upload-other", ofn)
 	}
+	storeErr := big == 3
+	if storeErr {
+		nth := t.Range(0, 60)
+		w.Faults = &simkit.FaultCfg{Plan: []*simkit.Planned{{Client: "up", Nth: nth, Kind: simkit.Kind(int(simkit.FErr) + t.Choose(2))}}}
+		w.Note("one store error at write #%d of the upload", nth)
+	}
 	_, ufn := d.upload(cl, d.Stores(cl), "r1", src, uo)
 	up := w.Go(cl, "upload", ufn)
 	if v := w.Run(); v != nil {
@@ -213,6 +225,18 @@ func runC04(rc *RunCtx, big int) *simkit.Violation {
 		}
 		w.Probe("failed-upload-invisible")
 		return nil
+	}
+	w.Faults = nil
+	if storeErr && up.Err != nil {
+		if len(listed) != 0 {
+			return Viol(prop, "failed-upload-visible", "ListBundles", listed[0].ID, "the upload failed (%v) but a bundle is visible", up.Err)
+		}
+		w.Probe("upload-failed-on-store-error")
+		w.Probe("nontrivial")
+		return nil
+	}
+	if storeErr {
+		w.Probe("upload-succeeded-despite-store-error")
 	}
 	if up.Err != nil {
 		return Viol(prop, "upload-error", "Upload", "r1", "fault-free upload (%s) failed: %v", mode, up.Err)
